@@ -103,7 +103,9 @@ type Master struct {
 	Workers  int
 	Deadline time.Time
 	MaxFound int
-	Verbose  bool
+	// unitDeadline: the current unit's share of the budget (see Run)
+	unitDeadline time.Time
+	Verbose      bool
 
 	units []Unit
 	mu    sync.Mutex
@@ -303,6 +305,9 @@ func (m *Master) expired() bool {
 	if !m.Deadline.IsZero() && time.Now().After(m.Deadline) {
 		return true
 	}
+	if !m.unitDeadline.IsZero() && time.Now().After(m.unitDeadline) {
+		return true
+	}
 	// Early stop: once the verdict is settled (many findings), or worker
 	// processes keep dying, further exploration only costs time. The run is
 	// then reported as not exhaustive.
@@ -324,6 +329,16 @@ func (m *Master) tooManyDeaths(deaths int) bool {
 		return deaths > 400
 	}
 	return deaths > 60
+}
+
+// maxStatesPerUnit bounds the number of distinct states one BFS unit may
+// keep (VERIF_MAX_STATES overrides the default of 20 million); a unit that
+// reaches it stops at the level boundary and is reported as not exhaustive.
+func maxStatesPerUnit() int {
+	if v, err := strconv.Atoi(os.Getenv("VERIF_MAX_STATES")); err == nil && v > 0 {
+		return v
+	}
+	return 20_000_000
 }
 
 func (m *Master) bfs(ui int, sc *Scenario) {
@@ -413,6 +428,12 @@ func (m *Master) bfs(ui int, sc *Scenario) {
 		completed = depth + 1
 		frontier = next
 		frontierKeys = nextKeys
+		if states > maxStatesPerUnit() && depth+1 < sc.Depth && len(frontier) > 0 {
+			// memory cap: the seen set and the frontier live in the master
+			exhaustive = false
+			rep["state_cap_hit"] = true
+			break
+		}
 		if m.Verbose {
 			fmt.Fprintf(os.Stderr, "  [%s] depth %d: states=%d transitions=%d frontier=%d found=%d\n", sc.Name, completed, states, trans, len(frontier), len(m.Found))
 		}
@@ -627,6 +648,17 @@ func (m *Master) Run(verifDir string, seed int) int {
 		m.MaxFound = 3
 	}
 	for ui, un := range m.units {
+		// thorough tier: every unit gets an equal share of what is left of the
+		// time budget (unused time is passed on), so that a huge early unit
+		// cannot leave the later ones unexplored; in the quick tier the budget
+		// is only a safety net
+		if !m.Deadline.IsZero() && m.Tier == "thorough" {
+			left := time.Until(m.Deadline)
+			if left < 0 {
+				left = 0
+			}
+			m.unitDeadline = time.Now().Add(left / time.Duration(len(m.units)-ui))
+		}
 		if un.Sc != nil {
 			m.bfs(ui, un.Sc)
 		} else {
